@@ -41,7 +41,15 @@ type RunSpec struct {
 	// rule files): the reference run whose --json report stands in for runs of the same
 	// case that completed linting but whose console reporter failed.
 	TeamCity bool `json:"teamcity,omitempty"`
+	// Report files asked for: "" or "json" = --json only, "both" = --checkstyle and --json,
+	// "checkstyle" = --checkstyle only, "none" = neither.  Runs without --json are judged
+	// against the JSON report of another run of the same input.
+	Report   string `json:"report,omitempty"`
+	Color    bool   `json:"color,omitempty"`     // leave --no-color out
+	LogLevel string `json:"log_level,omitempty"` // -l <level>
 }
+
+func (r RunSpec) wantsJSON() bool { return r.Report == "" || r.Report == "json" || r.Report == "both" }
 
 type Case struct {
 	Kind     string     `json:"kind"` // "lint" | "ci"
@@ -119,7 +127,12 @@ func (c Case) args(r RunSpec, jsonPath string) []string {
 	if r.ShowDup {
 		a = append(a, "-s")
 	}
-	a = append(a, "--no-color")
+	if !r.Color {
+		a = append(a, "--no-color")
+	}
+	if r.LogLevel != "" {
+		a = append(a, "-l", r.LogLevel)
+	}
 	if c.Offline {
 		a = append(a, "--offline")
 	}
@@ -143,7 +156,12 @@ func (c Case) args(r RunSpec, jsonPath string) []string {
 	if r.TeamCity {
 		a = append(a, "--teamcity")
 	}
-	a = append(a, "--json", jsonPath)
+	if r.Report == "both" || r.Report == "checkstyle" {
+		a = append(a, "--checkstyle", strings.TrimSuffix(jsonPath, ".json")+".xml")
+	}
+	if r.wantsJSON() {
+		a = append(a, "--json", jsonPath)
+	}
 	if c.Kind == "lint" {
 		a = append(a, LintArgs(c.Input, c.ArgStyle)...)
 	}
@@ -278,7 +296,11 @@ func execute(c Case, bin string) ([]Outcome, []RunResult, error) {
 	}
 	if ref >= 0 {
 		for i := range outs {
-			if !outs[i].Completed && outs[i].Discard == "reporter-error" {
+			// runs without --json: a failure before linting completes depends on the input or on
+			// a flag value (both classified from stderr), so if the reference run completed and
+			// this run shows neither, it completed too
+			noJSON := !c.Runs[i].wantsJSON() && (outs[i].Discard == "other" || outs[i].Discard == "exit0-no-json")
+			if !outs[i].Completed && (outs[i].Discard == "reporter-error" || noJSON) {
 				outs[i].Completed = true
 				outs[i].Counts = outs[ref].Counts
 				outs[i].Borrowed = ref
@@ -313,10 +335,10 @@ func oracle(c Case, outs []Outcome, results []RunResult) error {
 		if want != got {
 			src := "the run's own JSON report"
 			if o.Borrowed >= 0 {
-				src = fmt.Sprintf("linting completed but a reporter failed; the JSON report of run %d of the same input", o.Borrowed)
+				src = fmt.Sprintf("(no JSON report of its own: not asked for, or a reporter failed after linting) the JSON report of run %d of the same input", o.Borrowed)
 			}
-			return fmt.Errorf("run %d (%s fail-on=%q min-severity=%q show-duplicates=%v workers=%d teamcity=%v): exit status %d but %s has %d Information, %d Warning, %d Bug, %d Fatal problem(s) (threshold %s)\n--- stderr tail ---\n%s",
-				i, c.Kind, r.FailOn, r.MinSev, r.ShowDup, r.Workers, r.TeamCity, o.Exit, src, o.Counts[0], o.Counts[1], o.Counts[2], o.Counts[3], effFailOn(r), tail(i))
+			return fmt.Errorf("run %d (%s fail-on=%q min-severity=%q show-duplicates=%v workers=%d teamcity=%v report-files=%q colour=%v log-level=%q): exit status %d but %s has %d Information, %d Warning, %d Bug, %d Fatal problem(s) (threshold %s)\n--- stderr tail ---\n%s",
+				i, c.Kind, r.FailOn, r.MinSev, r.ShowDup, r.Workers, r.TeamCity, r.Report, r.Color, r.LogLevel, o.Exit, src, o.Counts[0], o.Counts[1], o.Counts[2], o.Counts[3], effFailOn(r), tail(i))
 		}
 		decided = append(decided, dec{i, o.Threshold, got})
 	}
@@ -350,6 +372,9 @@ func genRun(t *rapid.T, lbl, failOn string, lint bool) RunSpec {
 	r.ShowDup = rapid.Bool().Draw(t, lbl+".dup")
 	r.Workers = rapid.SampledFrom([]int{0, 0, 1, 2, 16}).Draw(t, lbl+".workers")
 	r.Equals = rapid.Bool().Draw(t, lbl+".eq")
+	r.Report = rapid.SampledFrom([]string{"json", "json", "json", "both", "both", "both", "checkstyle", "none"}).Draw(t, lbl+".report")
+	r.Color = rapid.IntRange(0, 3).Draw(t, lbl+".color") == 0
+	r.LogLevel = rapid.SampledFrom([]string{"", "", "debug", "error", "warn"}).Draw(t, lbl+".loglevel")
 	return r
 }
 
@@ -357,6 +382,9 @@ func genRuns(t *rapid.T, lint bool) []RunSpec {
 	var runs []RunSpec
 	for i, f := range flagSev {
 		runs = append(runs, genRun(t, fmt.Sprintf("run%d", i), f, lint))
+	}
+	if !runs[0].wantsJSON() {
+		runs[0].Report = "both"
 	}
 	extra := 2
 	if lint {
@@ -369,6 +397,9 @@ func genRuns(t *rapid.T, lint bool) []RunSpec {
 	if !lint || rapid.IntRange(0, 3).Draw(t, "teamcity") == 0 {
 		r := genRun(t, "tc", rapid.SampledFrom(flagSev).Draw(t, "tc.failon"), lint)
 		r.TeamCity = true
+		if !r.wantsJSON() {
+			r.Report = "json"
+		}
 		runs = append(runs, r)
 	}
 	if rapid.IntRange(0, 19).Draw(t, "badflag") == 0 {
@@ -569,6 +600,13 @@ func runCase(rec *vstat.Recorder, c Case, bin string) error {
 			}
 			if r.TeamCity {
 				rec.Count("teamcity_reference_runs", 1)
+			}
+			rec.Count("report-files="+orAbsent(r.Report), 1)
+			if r.Color {
+				rec.Count("colour", 1)
+			}
+			if r.LogLevel != "" {
+				rec.Count("log-level="+r.LogLevel, 1)
 			}
 			for _, tg := range c.Input.Tags {
 				if strings.HasPrefix(tg, "dep:") {
